@@ -106,7 +106,9 @@ def opt_disjoint(ctx):
                         break
                     it = m2.group(1)
                 return it == "v" or re.match(r"^CodePointInversionList::iter_chars\(a[12]\.0\)$", it) is not None
-            full = all(_whole(g) for g in ex)
+            # (another iterator that ran out on the way - over the ranges of the class, say, to count them - is not
+            # a view of the characters and takes nothing away from the scan that did look at every one of them)
+            full = bool(ex) and _whole(ex[-1]) and all(_whole(g) or "iter_chars" not in g for g in ex)
             out.append(ok("true-after-exhaustion|of-the-whole-class") if exhausted and full else bad("true-after-exhaustion|of-the-whole-class", "is_disjoint answers true when an iterator runs out that does not cover the whole class (%s): characters that were never looked at may be common to both" % (ex or gs[-2:]), loc))
         elif r == "false":
             pass
@@ -136,47 +138,109 @@ def opt_disjoint(ctx):
 SEQ_OPT = "<op_sequence::Sequence as %s>::optimize::{closure#0}" % OC
 
 
+def _unamb_view(gs, texts):
+    """Names the operation being optimised (CUR) and its follower (NEXT) in a path of Sequence::optimize, however
+    the sequence is walked: by index (`operations[i]`, `operations[i + 1]`, the closure of `enumerate().map(..)`)
+    or through a peekable iterator (`next()`, then `peek()` of the same iterator - after the `next`, so it is the
+    follower).  Returns (substitutions, has_follower) or None."""
+    joined = "\n".join(gs + texts)
+    # the closure of HEAD: a2 = (i, operation), the sequence and the flags captured
+    if "a2.1" in joined and "^a1.operations" in joined:
+        subs = [("^a1.operations[add(1, a2.0)]", "NEXT"), ("^a1.operations[add(a2.0, 1)]", "NEXT"), ("a2.1", "CUR"), ("^a2", "FLAGS")]
+        last = any(g in ("eq(a2.0, sub(len(^a1.operations), 1))", "eq(sub(len(^a1.operations), 1), a2.0)", "!lt(add(1, a2.0), len(^a1.operations))", "!lt(add(a2.0, 1), len(^a1.operations))") for g in gs)
+        notlast = any(g in ("!eq(a2.0, sub(len(^a1.operations), 1))", "!eq(sub(len(^a1.operations), 1), a2.0)", "lt(add(1, a2.0), len(^a1.operations))", "lt(add(a2.0, 1), len(^a1.operations))") for g in gs)
+        return subs, (False if last else True if notlast else None)
+    m = re.search(r"<Peekable<I> as Iterator>::next\((Iterator::peekable\((?:<[^()]*>::into_iter\(|IntoIterator::into_iter\(|into_iter\()?a1\.operations\)?\))\) as Some\.0", joined)
+    if m:
+        pk = m.group(1)
+        subs = [("Peekable::peek(%s) as Some.0" % pk, "NEXT"), ("<Peekable<I> as Iterator>::next(%s) as Some.0" % pk, "CUR"), ("a2", "FLAGS")]
+        some = ("variant(Peekable::peek(%s))=Some" % pk) in gs
+        none = ("variant(Peekable::peek(%s))=None" % pk) in gs
+        return subs, (True if some else False if none else None)
+    return None
+
+
+def _unamb_sub(s, subs):
+    for a, b_ in subs:
+        s = s.replace(a, b_)
+    s = s.replace("<Operation as OperationControl>::optimize(CUR, FLAGS)", "OPT")
+    s = s.replace("Operation::repeat_operation(OPT) as Some.0", "RO")
+    s = s.replace("RepeatOperation::child(RO)", "CH")
+    return s
+
+
 @rule("OPT-UNAMB-SITES", ["C08", "C01", "C20", "C06", "C11", "C02"], floor=4)
 def opt_unamb_sites(ctx):
     """UnambiguousRepeat (a cut: single result, no backtracking) is built only in Sequence::optimize, only for a
     repeated Atom/CharClass, and only under min==max or no_ambiguity(child, next operation, flag i, !greedy);
-    it keeps the bounds of the repeat it replaces."""
+    it keeps the bounds of the repeat it replaces; the last operation, which has no follower, is never rewritten."""
     out = []
-    # who may construct
+    SEQ_ROOT = SEQ_OPT.split("::{closure")[0]
+    homes = []
     for caller, bb in ctx.cg.sites.get("op_unambiguous_repeat::UnambiguousRepeat::new", []):
-        root = caller.path
-        if root != SEQ_OPT:
+        root = caller.path.split("::{closure")[0]
+        if root != SEQ_ROOT:
             out.append(bad("constructor|" + root, "UnambiguousRepeat::new is called from %s: the non-backtracking operator may be introduced only by Sequence::optimize" % root, caller.loc(bb)))
-    b = ctx.body(SEQ_OPT)
-    if b is None:
+        elif caller.path not in homes:
+            homes.append(caller.path)
+    if not homes:
         return out + [missing(SEQ_OPT)]
-    AB = [("OPT", "<Operation as OperationControl>::optimize(a2.1, ^a2)"), ("RO", "Operation::repeat_operation(OPT) as Some.0"), ("CH", "RepeatOperation::child(RO)")]
     n = 0
-    for p in ctx.walk(b).paths:
-        gs, r = summarize(p, AB)
-        if "UnambiguousRepeat::new(" not in r:
-            continue
-        n += 1
-        loc = b.loc(p.blocks[-1])
-        m = re.search(r"UnambiguousRepeat::new\((.*)\)\)$", r)
-        args = m.group(1) if m else ""
-        key = "site#%d" % n
-        child_ok = any(g in ("variant(CH)=Atom", "variant(CH)=CharClass") for g in gs)
-        eqmm = any(g in ("eq(RepeatOperation::max(RO), RepeatOperation::min(RO))", "eq(RepeatOperation::min(RO), RepeatOperation::max(RO))") for g in gs)
-        amb = any(g == "ReCompiler::no_ambiguity(CH, ^a1.operations[add(1, a2.0)], ReFlags::is_case_independent(^a2), !RepeatOperation::greedy(RO))" for g in gs)
-        ktype = "min==max" if eqmm else "no_ambiguity" if amb else "unjustified"
-        key = "site|" + ktype
-        if not child_ok:
-            out.append(bad(key + "|child", "the non-backtracking rewrite is applied to a repeated term that is not an Atom/CharClass", loc))
-        elif not (eqmm or amb):
-            out.append(bad(key, "UnambiguousRepeat is built without min==max and without no_ambiguity(child, next operation, flag i, !greedy) holding; guards: %s" % gs[-2:], loc))
-        elif args != "CH, RepeatOperation::min(RO), RepeatOperation::max(RO)":
-            out.append(bad(key + "|bounds", "UnambiguousRepeat must keep child/min/max of the repeat it replaces; built with (%s)" % args, loc))
-        else:
-            out.append(ok(key))
+    lastok = False
+    for hp in homes:
+        b = ctx.body(hp)
+        for sb in [None]:
+            w = ctx.walk(b)
+            for p in w.paths:
+                gs, r = summarize(p)
+                gs = [strip_ver(g) for g in gs]
+                r = strip_ver(r)
+                calls = [(e[1], [strip_ver(render(x)) for x in e[2]], [render(x) for x in e[2]]) for e in p.effects if e[0] == "call"]
+                texts = [r] + [a for c in calls for a in c[1]]
+                view = _unamb_view(gs, texts)
+                if view is None:
+                    continue
+                subs, follower = view
+                gs = [_unamb_sub(g, subs) for g in gs]
+                r = _unamb_sub(r, subs)
+                news = [c for c in calls if c[0].endswith("UnambiguousRepeat::new")]
+                loc = b.loc(p.blocks[-1])
+                if not news:
+                    # the operation is passed on as optimised; for the last one this is the only thing allowed
+                    kept = r == "OPT" or any(c[0].endswith("::push") and _unamb_sub(c[1][-1], subs) == "OPT" for c in calls)
+                    if follower is False and kept:
+                        lastok = True
+                    continue
+                n += 1
+                args = ", ".join(_unamb_sub(a, subs) for a in news[0][1])
+                child_ok = any(g in ("variant(CH)=Atom", "variant(CH)=CharClass") for g in gs)
+                eqmm = any(g in ("eq(RepeatOperation::max(RO), RepeatOperation::min(RO))", "eq(RepeatOperation::min(RO), RepeatOperation::max(RO))") for g in gs)
+                amb = any(g == "ReCompiler::no_ambiguity(CH, NEXT, ReFlags::is_case_independent(FLAGS), !RepeatOperation::greedy(RO))" for g in gs)
+                if amb and "NEXT" in "".join(g for g in gs if "no_ambiguity" in g):
+                    # through a peekable iterator the follower is what peek() shows *after* the next() that delivered CUR
+                    for c in calls:
+                        if c[0].endswith("no_ambiguity") and "Peekable::peek(" in c[2][1]:
+                            mm = re.search(r"Peekable::peek\((.*)\) as Some\.0$", c[2][1])
+                            if not (mm and mm.group(1).endswith(("′", "′2", "′3"))):
+                                amb = False
+                ktype = "min==max" if eqmm else "no_ambiguity" if amb else "unjustified"
+                key = "site|" + ktype
+                if follower is False:
+                    out.append(bad(key + "|last", "the last operation of the sequence is rewritten although it has no follower to compare with", loc))
+                elif not child_ok:
+                    out.append(bad(key + "|child", "the non-backtracking rewrite is applied to a repeated term that is not an Atom/CharClass", loc))
+                elif not (eqmm or amb):
+                    out.append(bad(key, "UnambiguousRepeat is built without min==max and without no_ambiguity(child, next operation, flag i, !greedy) holding; guards: %s" % gs[-2:], loc))
+                elif amb and not eqmm and follower is not True:
+                    out.append(bad(key + "|follower", "no_ambiguity is consulted without establishing that the operation has a follower", loc))
+                elif args != "CH, RepeatOperation::min(RO), RepeatOperation::max(RO)":
+                    out.append(bad(key + "|bounds", "UnambiguousRepeat must keep child/min/max of the repeat it replaces; built with (%s)" % args, loc))
+                else:
+                    out.append(ok(key))
+    if not n:
+        out.append(bad("sites", "no path of Sequence::optimize that builds an UnambiguousRepeat was recognised (restructured; re-audit)", None))
     # last operation is never rewritten (it has no follower)
-    lastok = any(summarize(p, AB)[0][:1] in (["eq(a2.0, sub(len(^a1.operations), 1))"], ["eq(sub(len(^a1.operations), 1), a2.0)"], ["!lt(add(1, a2.0), len(^a1.operations))"], ["!lt(add(a2.0, 1), len(^a1.operations))"]) and summarize(p, AB)[1] == "OPT" for p in ctx.walk(b).paths)
-    out.append(ok("last-not-rewritten") if lastok else bad("last-not-rewritten", "the last operation of a sequence must be returned as optimised (no follower to compare with)", b.loc()))
+    out.append(ok("last-not-rewritten") if lastok else bad("last-not-rewritten", "the last operation of a sequence must be returned as optimised (no follower to compare with)", None))
     # cut inventory: other constructors of cuts
     for callee_, allowed in (("operation::ForceProgressIterator::new", {"<op_repeat::Repeat as %s>::matches_iter" % OC}), ("re_matcher::ReMatcher::is_duplicate_zero_length_match", {"<op_repeat::Repeat as %s>::matches_iter" % OC})):
         for caller, bb in ctx.cg.sites.get(callee_, []):
@@ -573,7 +637,7 @@ ADDP = "re_program::ReProgram::add_precondition"
 ADDR = "re_program::ReProgram::add_repeat_precondition"
 
 
-@rule("OPT-PRECOND", ["C08", "C01", "C20"], floor=10)
+@rule("OPT-PRECOND", ["C08", "C01", "C20", "C05"], floor=10)
 def opt_precond(ctx):
     """add_precondition descends only into terms every match must contain: Atom/CharClass themselves; the child of
     a Capture; a repeat-family node only under min >= 1; all operations of a Sequence in order; never into Choice
@@ -640,6 +704,10 @@ def opt_precond(ctx):
             else:
                 good = len(calls) == 1 and calls[0][0] == "ReProgram::add_precondition" and calls[0][1][1:] == [CH, "a4", "a5"]
                 out.append(ok("repeat-child") if good else bad("repeat-child", "repeat of a composite term: descend into the child with the same positions; found %s" % calls, loc))
+    for i in out:
+        # what is probed as a precondition runs before match_at has allocated the back-reference arrays: that no
+        # precondition contains a Capture (only Atom / CharClass leaves, and repeats of them) also bears on C05
+        i.props = ["C08", "C01", "C20", "C05"] if i.key.startswith(("repeat-", "capture", "leaf", "ignored")) else ["C08", "C01", "C20"]
     return out
 
 
